@@ -168,40 +168,54 @@ func goEnv() []string {
 	return append(out, "GOFLAGS=-mod=mod", "GOPROXY=off", "CGO_ENABLED=0")
 }
 
+// newEnv prefers a scratch directory on tmpfs (/dev/shm): creating the
+// case's tree costs ~1 ms per object on the sandbox's ext4 and almost nothing
+// there. It falls back to os.TempDir() when /dev/shm is missing or noexec.
 func newEnv() (*env, error) {
-	base, err := os.MkdirTemp("", "c18-")
-	if err != nil {
-		return nil, infraf("mkdtemp: %v", err)
-	}
-	e := &env{base: base, jail: filepath.Join(base, "jail"), sock: filepath.Join(base, "s"), bin: filepath.Join(base, "srvchild"), dotu: true}
-	e.export = filepath.Join(e.jail, upName, exportName)
+	var e *env
+	var lastErr error
+	for _, parent := range []string{"/dev/shm", os.TempDir()} {
+		base, err := os.MkdirTemp(parent, "c18-")
+		if err != nil {
+			lastErr = infraf("mkdtemp in %s: %v", parent, err)
+			continue
+		}
+		e = &env{base: base, jail: filepath.Join(base, "jail"), sock: filepath.Join(base, "s"), bin: filepath.Join(base, "srvchild"), dotu: true}
+		e.export = filepath.Join(e.jail, upName, exportName)
 
-	args := []string{"build", "-tags", "verif", "-o", e.bin}
-	if mf := os.Getenv("VERIF_MODFILE"); mf != "" {
-		args = append(args, "-modfile="+mf)
-	}
-	args = append(args, "verif/cmd/srvchild")
-	cmd := exec.Command("go", args...)
-	cmd.Dir = hx.Root
-	cmd.Env = goEnv()
-	if out, err := cmd.CombinedOutput(); err != nil {
-		_ = os.RemoveAll(base)
-		return nil, infraf("building srvchild failed: %v\n%s", err, out)
-	}
+		args := []string{"build", "-tags", "verif", "-o", e.bin}
+		if mf := os.Getenv("VERIF_MODFILE"); mf != "" {
+			args = append(args, "-modfile="+mf)
+		}
+		args = append(args, "verif/cmd/srvchild")
+		cmd := exec.Command("go", args...)
+		cmd.Dir = hx.Root
+		cmd.Env = goEnv()
+		if out, err := cmd.CombinedOutput(); err != nil {
+			_ = os.RemoveAll(base)
+			return nil, infraf("building srvchild failed: %v\n%s", err, out)
+		}
 
-	// the janitor removes the scratch directory when this process is gone,
-	// however it ends (hx.Main leaves through os.Exit)
-	jan := exec.Command(e.bin, "-janitor", base)
-	jin, err := jan.StdinPipe()
-	if err == nil {
-		err = jan.Start()
+		// the janitor removes the scratch directory when this process is gone,
+		// however it ends (hx.Main leaves through os.Exit)
+		jan := exec.Command(e.bin, "-janitor", base)
+		jin, err := jan.StdinPipe()
+		if err == nil {
+			err = jan.Start()
+		}
+		if err != nil {
+			_ = os.RemoveAll(base)
+			lastErr = infraf("starting the janitor from %s: %v", base, err)
+			e = nil
+			continue
+		}
+		e.janitorIn = jin
+		go func() { _ = jan.Wait() }()
+		break
 	}
-	if err != nil {
-		_ = os.RemoveAll(base)
-		return nil, infraf("starting the janitor: %v", err)
+	if e == nil {
+		return nil, lastErr
 	}
-	e.janitorIn = jin
-	go func() { _ = jan.Wait() }()
 
 	if err := os.MkdirAll(e.jail, 0o755); err != nil {
 		return nil, infraf("mkdir jail: %v", err)
